@@ -43,6 +43,9 @@ type effect struct {
 	kind effKind
 	k, v ssa.Value // map key / value ; for slice effects v = element x, k = replacement y (replace)
 	in   ssa.Instruction
+	// param mode: v is not the element but the helper's position parameter (removeKeyAt(keys, pos)); the caller's
+	// argument must be SearchStrings(S, x) and x becomes the element when the helper is inlined
+	vIsPos bool
 }
 
 type tfact struct {
@@ -189,6 +192,11 @@ func isEmptySliceValue(v ssa.Value) bool {
 
 // searchOf: v = sort.SearchStrings(load S, x) → x
 func (tc *tcase) searchOf(v ssa.Value) (ssa.Value, bool) {
+	if p, isParam := strip(v).(*ssa.Parameter); isParam && tc.sParam != nil && isIntType(p.Type()) {
+		if sp, ok := tc.sParam.(*ssa.Parameter); ok && sp.Parent() == p.Parent() {
+			return p, true // the position is handed in: resolved against the caller's argument when inlined
+		}
+	}
 	c, ok := strip(v).(*ssa.Call)
 	if !ok {
 		return nil, false
@@ -299,7 +307,7 @@ func (tc *tcase) assigned(v ssa.Value, in ssa.Instruction) (effect, bool, string
 				if xk, ok := tc.searchOf(lo.High); ok {
 					if b, ok := hi.Low.(*ssa.BinOp); ok && b.Op == token.ADD && b.X == lo.High {
 						if n, ok := constInt(b.Y); ok && n == 1 {
-							return effect{kind: effRemove, v: xk, in: in}, true, ""
+							return effect{kind: effRemove, v: xk, in: in, vIsPos: isPosParam(xk)}, true, ""
 						}
 					}
 				}
@@ -339,7 +347,7 @@ func (tc *tcase) assigned(v ssa.Value, in ssa.Instruction) (effect, bool, string
 							}
 						})
 						if xk != nil {
-							return effect{kind: effRemove, v: xk, in: in}, true, ""
+							return effect{kind: effRemove, v: xk, in: in, vIsPos: isPosParam(xk)}, true, ""
 						}
 						return effect{}, false, "truncation of " + S.Name() + " without the copy(S[pos:], S[pos+1:]) shift at pos=SearchStrings(S,x)"
 					}
@@ -391,7 +399,26 @@ func (tc *tcase) paths(fn *ssa.Function, limit int) ([]tpath, string) {
 					}
 					for _, sp := range sub {
 						q := p
-						q.effects = append(append([]effect{}, p.effects...), relocate(sp.effects, c)...)
+						rel := relocate(sp.effects, c)
+						for k := range rel {
+							if !rel[k].vIsPos {
+								continue
+							}
+							// the helper removes at a position it was given: that position must be the caller's search
+							okPos := false
+							for j, gp := range g.Params {
+								if ssa.Value(gp) == rel[k].v && j < len(c.Call.Args) {
+									if xk, ok := tc.searchOf(c.Call.Args[j]); ok {
+										rel[k].v, rel[k].vIsPos, okPos = xk, false, true
+									}
+								}
+							}
+							if !okPos {
+								problem = fmt.Sprintf("%s removes the element at a position that is not SearchStrings(%s, x) at %s", staticCalleeName(c), tc.spec.S.Name(), tc.e.ipos(c))
+								return
+							}
+						}
+						q.effects = append(append([]effect{}, p.effects...), rel...)
 						q.facts = append(append([]tfact{}, p.facts...), sp.facts...)
 						q.eqs = append(append([]symEq{}, p.eqs...), sp.eqs...)
 						for j, gp := range g.Params {
@@ -518,6 +545,11 @@ func (tc *tcase) paths(fn *ssa.Function, limit int) ([]tpath, string) {
 	return out, problem
 }
 
+func isPosParam(v ssa.Value) bool {
+	p, ok := v.(*ssa.Parameter)
+	return ok && isIntType(p.Type())
+}
+
 // helperCallOf: v is the first result of a call.
 func helperCallOf(v ssa.Value) *ssa.Call {
 	v = strip(v)
@@ -576,7 +608,7 @@ func allSameEffects(ps []tpath) bool {
 func relocate(effs []effect, c *ssa.Call) []effect {
 	out := make([]effect, len(effs))
 	for i, ef := range effs {
-		out[i] = effect{kind: ef.kind, k: ef.k, v: ef.v, in: c}
+		out[i] = effect{kind: ef.kind, k: ef.k, v: ef.v, in: c, vIsPos: ef.vIsPos}
 	}
 	return out
 }
